@@ -452,13 +452,23 @@ func Eq(a, b *Term) *Term {
 		}
 	case KBV:
 		if a.I != nil && b.I != nil && !(a.Const && b.Const) {
-			return app("=", KBool, 0, a.I, b.I)
+			return Eq(a.I, b.I)
 		}
 	case KFP:
 		return app("fp.eq", KBool, 0, a, b)
 	case KInt:
 		if d, ok := linConstDiff(a, b); ok {
 			return mkBool(d == 0)
+		}
+		if b.Const && b.IVal.IsInt64() {
+			if lo, hi, ok := codeRange(a); ok && (b.IVal.Int64() < lo || b.IVal.Int64() > hi) {
+				return tFalse
+			}
+		}
+		if a.Const && a.IVal.IsInt64() {
+			if lo, hi, ok := codeRange(b); ok && (a.IVal.Int64() < lo || a.IVal.Int64() > hi) {
+				return tFalse
+			}
 		}
 		// str.to_code(x) == c (c >= 0)  <=>  x == char(c)
 		if b.Const && b.IVal.Sign() >= 0 && b.IVal.IsInt64() && b.IVal.Int64() < 256 && a.Op == "str.to_code" {
@@ -486,6 +496,9 @@ func Eq(a, b *Term) *Term {
 			return tFalse
 		}
 		if b.Const && len(b.SVal) < minLen(a) {
+			return tFalse
+		}
+		if a.Const && len(a.SVal) > 0 && !canSpell(b, a.SVal) || b.Const && len(b.SVal) > 0 && !canSpell(a, b.SVal) {
 			return tFalse
 		}
 		if r, ok := eqStructural(a, b); ok {
@@ -521,6 +534,9 @@ func intLt(a, b *Term) *Term {
 	if r, ok := linSignCmp(a, b, true); ok {
 		return r
 	}
+	if r, ok := rangeCmp(a, b, true); ok {
+		return r
+	}
 	return app("<", KBool, 0, a, b)
 }
 
@@ -534,7 +550,65 @@ func intLe(a, b *Term) *Term {
 	if r, ok := linSignCmp(a, b, false); ok {
 		return r
 	}
+	if r, ok := rangeCmp(a, b, false); ok {
+		return r
+	}
 	return app("<=", KBool, 0, a, b)
+}
+
+// codeRange bounds str.to_code(x) through the alphabet of x.
+func codeRange(t *Term) (int64, int64, bool) {
+	if t.Op != "str.to_code" {
+		return 0, 0, false
+	}
+	x := t.Args[0]
+	for x.Op == "str.at" || x.Op == "str.substr" {
+		x = x.Args[0]
+	}
+	if x.Op != "var" || x.Alpha == nil {
+		return 0, 0, false
+	}
+	lo, hi := int64(-1), int64(-1)
+	for c := 0; c < 256; c++ {
+		if x.Alpha[c] {
+			if lo < 0 {
+				lo = int64(c)
+			}
+			hi = int64(c)
+		}
+	}
+	if lo < 0 {
+		return 0, 0, false
+	}
+	// an out-of-range str.at yields "" whose code is -1; callers bound-check indices first
+	return lo, hi, true
+}
+
+// rangeCmp decides a<b / a<=b from alphabet ranges when one side is constant.
+func rangeCmp(a, b *Term, strict bool) (*Term, bool) {
+	if b.Const && b.IVal.IsInt64() {
+		if lo, hi, ok := codeRange(a); ok {
+			c := b.IVal.Int64()
+			if hi < c || (!strict && hi <= c) {
+				return tTrue, true
+			}
+			if lo > c || (strict && lo >= c) {
+				return tFalse, true
+			}
+		}
+	}
+	if a.Const && a.IVal.IsInt64() {
+		if lo, hi, ok := codeRange(b); ok {
+			c := a.IVal.Int64()
+			if c < lo || (!strict && c <= lo) {
+				return tTrue, true
+			}
+			if c > hi || (strict && c >= hi) {
+				return tFalse, true
+			}
+		}
+	}
+	return nil, false
 }
 
 // linSignCmp decides a<b / a<=b when b-a is a combination of lengths with
@@ -761,7 +835,7 @@ func nonNegInt(t *Term) bool {
 		return t.I.IVal.Sign() >= 0
 	}
 	switch t.I.Op {
-	case "str.len", "bv2nat":
+	case "str.len", "bv2nat", "str.to_code": // (indices are bounds-checked before a byte is read)
 		return true
 	}
 	return false
@@ -1588,4 +1662,14 @@ func eqStructural(a, b *Term) (*Term, bool) {
 		return tFalse, true
 	}
 	return app("=", KBool, 0, ra, rb), true
+}
+
+// canSpell: false when the constant contains a byte the term can never contain.
+func canSpell(t *Term, c string) bool {
+	for i := 0; i < len(c); i++ {
+		if !mayContain(t, c[i]) {
+			return false
+		}
+	}
+	return true
 }
